@@ -3011,6 +3011,14 @@ func (vc *ValCount) smaller(other ValCount) ValCount {
 	if vc.Count == 0 || (other.Val < vc.Val && other.Count > 0) {
 		return other
 	}
+	// Both hold the same value: the count is the total across both,
+	// whichever of the two arrived first.
+	if other.Val == vc.Val && other.Count > 0 {
+		return ValCount{
+			Val:   vc.Val,
+			Count: vc.Count + other.Count,
+		}
+	}
 	return ValCount{
 		Val:   vc.Val,
 		Count: vc.Count,
@@ -3021,6 +3029,14 @@ func (vc *ValCount) smaller(other ValCount) ValCount {
 func (vc *ValCount) larger(other ValCount) ValCount {
 	if vc.Count == 0 || (other.Val > vc.Val && other.Count > 0) {
 		return other
+	}
+	// Both hold the same value: the count is the total across both,
+	// whichever of the two arrived first.
+	if other.Val == vc.Val && other.Count > 0 {
+		return ValCount{
+			Val:   vc.Val,
+			Count: vc.Count + other.Count,
+		}
 	}
 	return ValCount{
 		Val:   vc.Val,
